@@ -29,4 +29,8 @@ CHECKS["C17"] = dict(engine="crosshair + symx",
     technique="CrossHair symbolic execution of contracts over strings/ints; symx/z3 LIA for numeric lookup, ordering and radius helpers over all integers",
     text="Numeric lookup, the ordering laws (strict total order, carbon first) and the vectorised helpers are executed on symbolic integers and decided in LIA for every integer (no bound). String lookups are CrossHair contracts over all strings of length <= 3 from a 65-character alphabet (soundness: a returned element is named by the string), digit strings, and formulas of <= 4 elements; the finite spelling-variant space is enumerated completely as ground instances.",
     note="CrossHair conditions that are 'Not confirmed' within the time budget are listed as inconclusive (bug-hunting only); oracle = an independent reference table of symbols/names in /verif; radii and masses have no independent reference.")
+CHECKS["C02"] = dict(engine="real code on the finite table + z3 (LRA/IsInt, quantified) for action equality",
+    technique="complete ground evaluation of the 530 tabulated settings through the real SpaceGroup code; z3 decides equality of actions on a symbolic point modulo the lattice",
+    text="The domain is the finite bundled table, so the verdicts (identity, uniqueness, closure, inverses, centrosymmetric flag, lookup by full list and by LATT+SYMM) are ground instances computed by the real code for all 530 settings - equivalent to complete enumeration. The solver part shows, for sampled compositions/inverses and the reduce->expand images of every setting, that the matched group element has the same action on a symbolic point for all x modulo Z^3.",
+    note="The family adds no leverage over enumeration for the table itself (stated in DESIGN C02); composition is computed from SymmetryOperation.apply on basis points.")
 NOT_APPLICABLE = [{"property_id": p, "reason": "check not yet implemented in this round (planned, see DESIGN.md section 3)"} for p in ALL if p not in CHECKS]
